@@ -5,18 +5,23 @@ T3 = 'nfc.tag.tt3:'
 NDEF3 = lambda: Obj(T3 + 'Type3Tag.NDEF', _partial=False, _data=None, _capacity=0, _readable=False,   # noqa
                     _writeable=False,
                     _tag=Obj('models.tag_models:T3TagAdversary', _partial=False, sys=OneOf(0x12FC, 0xFFFF),
-                             idm=None, pmm=None, commands=0))
+                             idm=None, pmm=None, commands=0, unverified=False))
 contract(T3 + 'Type3Tag.NDEF._read_attribute_data', 'C08', dict(self=NDEF3()), name='C08/tt3._read_attribute_data',
          ensures=[('post.shape', 'result is None or (self._capacity == result["nmaxb"] * 16 and '
                                  '0 <= result["nbr"] and result["nbr"] <= 255 and 0 <= result["ln"])')],
          raises={})
 contract(T3 + 'Type3Tag.NDEF._read_ndef_data', 'C08', dict(self=NDEF3()), name='C08/tt3._read_ndef_data',
          ensures=[('post.within-capacity', 'result is None or len(result) <= self._capacity'),
-                  ('post.commands', 'self._tag.commands <= 2 + 65536')],
+                  ('post.commands', 'self._tag.commands <= 2 + 65536'),
+                  # C20: if a MAC protected read did not verify, no NDEF data comes out
+                  ('post.verified-only', 'implies(self._tag.unverified, result is None)')],
          raises={},
          loops={('nfc.tag.tt3.Type3Tag.NDEF._read_ndef_data', 'For', 0): LoopSpec(
-             invariant=['len(data) <= 16 * (_k * nbr)', 'self._tag.commands <= 2 + _k'],
-             havoc={'data': Bytes(0, None, mutable=True), 'self._tag.commands': Int(0, None)})})
+             invariant=['len(data) <= 16 * (_k * nbr)', 'self._tag.commands <= 2 + _k',
+                        # reading goes on only while every chunk so far verified
+                        'not self._tag.unverified'],
+             havoc={'data': Bytes(0, None, mutable=True), 'self._tag.commands': Int(0, None),
+                    'self._tag.unverified': Bool()})})
 
 T4 = 'nfc.tag.tt4:'
 NDEF4 = lambda _capacity=0, **kw: Obj(T4 + 'Type4Tag.NDEF', _partial=False, _data=None, _capacity=_capacity,   # noqa
@@ -191,3 +196,15 @@ for _p in ('C08', 'C01'):
              name='%s/tt1.get_capacity' % _p, raises={},
              ensures=[('O-capacity.fits', 'result < 0 or result + (2 if result < 255 else 4) <= '
                                           'len(set(range(offset, tag_memory_size)) - skip_bytes)')])
+
+# C20 ("data read with message authentication is returned only if its MAC verifies") and C16 rest on the two
+# Type 3 readers above when the tag is an authenticated FeliCa Lite: obligations there too
+import copy as _copy
+from pyvc.contracts import REGISTRY as _REG
+for _c in list(_REG):
+    if _c.name in ('C08/tt3._read_attribute_data', 'C08/tt3._read_ndef_data'):
+        for _prop in ('C20', 'C16'):
+            _c2 = _copy.copy(_c)
+            _c2.prop = _prop
+            _c2.name = _prop + '/' + _c.name.split('/', 1)[1]
+            _REG.append(_c2)
